@@ -15,6 +15,12 @@ LOCK=/verif/bin/.build.lock
     echo "BUILD FAILED (infrastructure, not a violation):" >&2; tail -30 /verif/bin/build.err >&2; exit 2
   fi
   mv -f /verif/bin/mhubsim.new /verif/bin/mhubsim."$PROP"
+  cp -f /verif/bin/mhubsim."$PROP" /verif/bin/mhubsim
+  if [ "$PROP" = C20 ]; then
+    if ! go1.26.8 test -c -vet=off -o /verif/bin/c20.test ./conn 2>/verif/bin/build.err; then
+      echo "BUILD FAILED (infrastructure, not a violation):" >&2; tail -30 /verif/bin/build.err >&2; exit 2
+    fi
+  fi
 ) 9>"$LOCK" || exit 2
 cd /verif || exit 2
 exec /verif/bin/mhubsim."$PROP" check "$PROP" --tier "$TIER"
